@@ -11,6 +11,7 @@ from contracts.sinter import TFunc
 from contracts.core import TMW, TMaybeFunc, MERGE, CNTM, _b2i
 
 DEPENDS = ('sinter', 'core')
+LATE = True
 
 TRoute = TObj('Route', inv=lambda r: r != Z.NONE)
 TBRoute = TObj('BoundRoute', inv=lambda r: r != Z.NONE)
@@ -198,3 +199,101 @@ def register(E):
                 'builtins.ValueError': None, 'builtins.RuntimeError': None},
         may_raise_any=True,     # a user render factory may raise anything
         prop=['C01', 'C04', 'C10', 'C11']))
+
+
+def register_more(E):
+    from pyvc.classes import cls_of, issub
+    C = E.classes
+    UPPER = Z.func('str_upper', Z.Str, Z.Str)
+
+    # ---- BoundRoute.match_method (C06) -------------------------------------------------
+    self_br = TInst('clastic.route.BoundRoute', {'methods': TOpt(TSet(TStr))})
+
+    @E.spec('UPPER')
+    def UPPER_(I, ctx, s):
+        return VStr(UPPER(s.z))
+
+    E.add_contract(Contract(
+        'clastic.route.BoundRoute.match_method',
+        params={'self': self_br, 'method': TStr},
+        ensures=['result == (len(method) == 0 or self.methods is None or len(self.methods) == 0 '
+                 'or UPPER(method) in self.methods)'],
+        returns=TBool, prop=['C06']))
+
+    # ---- Route.__init__: method normalisation (C06) --------------------------------------
+    HTTP_METHODS = ['GET', 'HEAD', 'POST', 'PUT', 'DELETE', 'OPTIONS', 'TRACE', 'CONNECT', 'PATCH']
+
+    def methods_kwargs(given):
+        def mk(E_, ctx, name):
+            conc = {}
+            if given and getattr(E_, 'ground', None) is not None:
+                items = [VStr(Z.fresh('k_method%d' % i, Z.Str)) for i in range(E_.ground)]
+                conc['methods'] = VTuple(items)
+                E_.specns['k_methods'] = VTuple(items)
+            elif given:
+                ms = Z.fresh('k_methods', Z.SeqSort(Z.Str))
+                conc['methods'] = VSeq(ms, TStr)
+                E_.specns['k_methods'] = VSeq(ms, TStr)
+            else:
+                E_.specns['k_methods'] = NONE
+            return ctx.alloc(HDict(conc=conc))
+        return mk
+
+    @E.spec('UPPERSET')
+    def UPPERSET(I, ctx, seq):
+        """{m.upper() for m in seq} -- same comprehension the code evaluates"""
+        if isinstance(seq, VNone):
+            return VSet(Z.empty_set(Z.Str), TStr)
+        if isinstance(seq, VTuple):
+            return VSet(Z.set_of(Z.Str, [UPPER(i.z) for i in seq.items]), TStr)
+        f = E.loops.filter_map(Z.Str, Z.Str, z3.Const('comp!x', Z.Str), Z.TRUE, UPPER(z3.Const('comp!x', Z.Str)))
+        return VSet(M.elems_of(f(seq.z)), TStr)
+
+    @E.spec('HTTP_METHODS')
+    def HTTP_METHODS_(I, ctx):
+        return VSet(Z.set_of(Z.Str, [z3.StringVal(m) for m in HTTP_METHODS]), TStr)
+
+    E.add_contract(Contract(
+        'clastic.route.Route.__init__',
+        params={'self': TInst('clastic.route.Route', {}), 'pattern': TStr, 'endpoint': TFunc,
+                'render': TAny, 'render_error': TAny},
+        cases=[('no methods', {'kwargs': methods_kwargs(False)}), ('methods given', {'kwargs': methods_kwargs(True)})],
+        ensures=[
+            'implies(k_methods is None, self.methods is None)',
+            # methods are upper-cased, GET implies HEAD, nothing else is added
+            'implies(k_methods is not None and len(k_methods) > 0, '
+            'set(self.methods) == (UPPERSET(k_methods) | (set(["HEAD"]) if "GET" in UPPERSET(k_methods) else set())))',
+            'implies(k_methods is not None and len(k_methods) > 0, subset(UPPERSET(k_methods), HTTP_METHODS()))',
+            'self.pattern == pattern', 'self.endpoint is endpoint',
+        ],
+        raises={'clastic.route.InvalidMethod': None, 'clastic.route.InvalidPattern': None, 'builtins.TypeError': None,
+                'builtins.NameError': None},
+        raises_only_if={'clastic.route.InvalidMethod':
+                        'k_methods is not None and not subset(UPPERSET(k_methods), HTTP_METHODS())'},
+        prop=['C06']))
+
+    # ---- NullRoute.handle_sentinel_condition (C06) -----------------------------------------
+    TDS = TInst('clastic.application.DispatchState', {'exceptions': TList(TObj()), 'allowed_methods': TMSet(TStr),
+                                                       'attempted_routes': TList(TObj())})
+    E.add_contract(Contract(
+        'clastic.route.NullRoute.handle_sentinel_condition',
+        params={'self': TObj('Route'), 'request': TObj('Request'), '_application': TApp, '_route': TBRoute,
+                '_dispatch_state': TDS},
+        ensures=[
+            # the most recent non-breaking error, else 405 carrying the collected methods, else 404
+            'implies(len(_dispatch_state.exceptions) > 0, result is _dispatch_state.exceptions[-1])',
+            'implies(len(_dispatch_state.exceptions) == 0 and len(_dispatch_state.allowed_methods) > 0, '
+            'ERRTYPE_OF(result) is _application.error_handler.method_not_allowed_type and '
+            'ALLOW(result) == set(_dispatch_state.allowed_methods))',
+            'implies(len(_dispatch_state.exceptions) == 0 and len(_dispatch_state.allowed_methods) == 0, '
+            'ERRTYPE_OF(result) is _application.error_handler.not_found_type)',
+        ],
+        returns=TObj(), prop=['C06']))
+
+    @E.spec('ERRTYPE_OF')
+    def ERRTYPE_OF(I, ctx, e):
+        return VObj(Z.func('ERRTYPE_OF', Z.Obj, Z.Obj)(e.z), 'ErrType')
+
+    @E.spec('ALLOW')
+    def ALLOW_(I, ctx, e):
+        return VSet(Z.func('ALLOW', Z.Obj, Z.SetSort(Z.Str))(e.z), TStr)
